@@ -56,7 +56,7 @@ const ALPHA_MB: &[&str] = &["a", "b", "c", "d", "ä", "中"];
 // pool clusters only: concatenations re-segment into themselves
 const ALPHA_G: &[&str] = &["a", "b", "c", "d", "ä", "e\u{301}", "👍🏽", "🇩🇪"];
 
-fn alpha(g: bool, mb: bool) -> &'static [&'static str] {
+pub(crate) fn alpha(g: bool, mb: bool) -> &'static [&'static str] {
     if g {
         ALPHA_G
     } else if mb {
@@ -229,6 +229,11 @@ fn explain(c: &Case, w: &str, e: &BTreeSet<usize>, w2: &str, e2: &BTreeSet<usize
 impl Prop for C15 {
     type Case = Case;
     const ID: &'static str = "C15";
+    const FUZZ_TARGET: Option<&'static str> = Some("edit_word");
+    const FUZZ_RUNS: u64 = 8000000;
+    fn fuzz_decode(bytes: &[u8]) -> Option<Case> {
+        crate::fuzzdec::c15(bytes)
+    }
     const RULE: &'static str = "words of 0-8 characters over a 4-letter alphabet (+ multi-byte letters; closed-pool clusters in grapheme mode) x non-empty subsets of {insert, delete, replace, swap} x the real context-table InsertEdits/ReplaceEdits providers with generated tables over the alphabet plus <bow>/<eow> (edit strings of 0-3 characters, weights 1-4) or always-matching mock providers x delete/swap predicates x exclusion sets x ChaCha8 seeds x chains of 1-6 edits feeding the exclusion set back in; optionally corrupt_spelling end to end on a sentence. Oracle: no panic (overflow checks on); for every step there must exist a single-edit explanation of an enabled kind reproducing both the new word and the new exclusion set; excluded characters keep their identity; exclusion set within the new word. Non-trivial: a step changed the word while the exclusion set was non-empty. Distinct = distinct serialised case.";
     const ESSENTIAL: &'static [&'static str] = &["insert", "delete", "replace", "swap", "unchanged", "edit_at_0", "edit_at_last", "empty_word", "empty_replacement", "multi_char_insert", "chain>=3", "real_tables", "sentence"];
 
